@@ -118,6 +118,15 @@ def run(rep, tier):
             rep.ob("R2", tn.qualname, "enabled@host%s" % hk, enabled == should, expected=should, derived=enabled,
                    msg="%s.to_native is %s on a %s host, but the selector %s that class there" % (cname, "enabled" if enabled else "refused", hk, "picks" if should else "does not pick"))
             if enabled and should:
+                # every returning path constructs the native object from the *current* fields; nothing is memoised on self
+                rets_ = [l.value for g, l in lv if isinstance(l, Ret)]
+                stale = [show(v_)[:60] for v_ in rets_ if not (isinstance(v_, Op) and v_.op == "call" and (str(v_.args[0]) == "code" or "CodeType" in str(v_.args[0])))]
+                selfst = sorted({ast.unparse(n_) for n_ in ast.walk(tn.node) if isinstance(n_, ast.Attribute) and isinstance(n_.ctx, ast.Store) and isinstance(n_.value, ast.Name)
+                                 and n_.value.id == "self"} | {ast.unparse(n_) for n_ in ast.walk(tn.node) if isinstance(n_, ast.Call) and isinstance(n_.func, ast.Name)
+                                                               and n_.func.id == "setattr" and n_.args and ast.unparse(n_.args[0]) == "self"})
+                rep.ob("R2", tn.qualname, "fresh-object@host%s" % hk, not stale and not selfst, expected="every return is types.CodeType(<current fields>); no attribute of self is written",
+                       derived={"returns": stale, "stores on self": selfst} if (stale or selfst) else "fresh",
+                       msg="to_native returns or keeps an object that is not rebuilt from the current fields: after replace() (a deepcopy) or a field change the stale native object comes back")
                 v = [l.value for g, l in lv if isinstance(l, Ret)][0]
                 args = list(v.args[1:]) if isinstance(v, Op) and v.op == "call" else None
                 want = []
